@@ -7,7 +7,7 @@ for d in sorted(glob.glob('/verif/seeded/*/')):
     if not os.path.exists(m):
         continue
     j = json.load(open(m))
-    rows.append((j['id'], j.get('origin', '')[:12], j['needs_to_manifest'], ('obsolete since fix 0a7efb8 (was: ' + ', '.join(j.get('caught_by', [])) + ')') if 'obsolete' in j else (', '.join(j.get('caught_by', [])) or 'NONE (documented limit)')))
+    rows.append((j['id'], j.get('origin', '')[:12], j['needs_to_manifest'], ('obsolete ' + (j['obsolete'].split(':')[0]) + ' (was: ' + (', '.join(j.get('caught_by', [])) or 'not caught') + ')') if 'obsolete' in j else (', '.join(j.get('caught_by', [])) or 'NONE (documented limit)')))
 print("| id | needs, in order to manifest | caught by |")
 print("|---|---|---|")
 for i, o, n, c in rows:
